@@ -23,7 +23,8 @@ pub struct RtSpec<'a> {
     pub expect: Expect,
     /// the property promises success on this input (false: an error is a legal outcome)
     pub ser_must_succeed: bool,
-    pub doc_check: Option<&'a dyn Fn(&[u8]) -> Result<(), Violation>>,
+    /// (document, number of statements that reached the serializer)
+    pub doc_check: Option<&'a dyn Fn(&[u8], usize) -> Result<(), Violation>>,
     /// refines the oracle id of a round-trip mismatch (want, got) -> suffix
     pub classify: Option<&'a dyn Fn(&BTreeSet<MQuad>, &BTreeSet<MQuad>) -> Option<&'static str>>,
     pub hash_seed: u64,
@@ -47,11 +48,11 @@ pub fn family(fmt: &dyn Format) -> String {
     n.split('/').next().unwrap_or("").to_string()
 }
 
-fn do_ser(fmt: &dyn Format, hs: u64, quads: &[MQuad], w: SimWriter) -> SerResult {
+fn do_ser(fmt: &dyn Format, hs: u64, quads: &[MQuad], w: SimWriter, src: u8) -> SerResult {
     if fmt.hash_sensitive() {
-        on_fresh_thread(hs, || fmt.serialize(quads, w))
+        on_fresh_thread(hs, || fmt.serialize(quads, w, src))
     } else {
-        fmt.serialize(quads, w)
+        fmt.serialize(quads, w, src)
     }
 }
 
@@ -333,9 +334,22 @@ pub fn run_roundtrip(ctx: &mut Ctx, spec: &RtSpec<'_>) -> Verdict {
     }
     ctx.sample(|| format!("format {fname}; input:\n{}", fmt_quads(spec.input)));
 
+    // where the statements come from: an iterator, a Vec-backed store or an indexed store
+    let src = ctx.tape.draw(3) as u8;
+    ctx.sig_u(u64::from(src));
+    ctx.probe(["source_is_iterator", "source_is_vec_store", "source_is_fast_store"][src as usize]);
+    let statements = if src == 2 {
+        spec.input
+            .iter()
+            .map(simcore::r#gen::norm_quad)
+            .collect::<BTreeSet<_>>()
+            .len()
+    } else {
+        spec.input.len()
+    };
     // 1. the fault-free twin
     let w0 = SimWriter::perfect();
-    let r0 = do_ser(fmt, hs, spec.input, w0.handle());
+    let r0 = do_ser(fmt, hs, spec.input, w0.handle(), src);
     let doc = w0.accepted();
     w0.absorb(ctx);
     ev!(ctx, "twin serialize {} quads -> {} bytes", spec.input.len(), doc.len());
@@ -364,7 +378,7 @@ pub fn run_roundtrip(ctx: &mut Ctx, spec: &RtSpec<'_>) -> Verdict {
     }
     ctx.sample(|| format!("document:\n{}", excerpt(&doc)));
     if let Some(check) = spec.doc_check {
-        check(&doc)?;
+        check(&doc, statements)?;
     }
 
     // 2. parse it back over a perfect channel
@@ -426,7 +440,7 @@ pub fn run_roundtrip(ctx: &mut Ctx, spec: &RtSpec<'_>) -> Verdict {
         ev!(ctx, "wplan noise={:?} fail_at={:?} fail_flush={} id={} kind={:?}", wplan.noise.codes, wplan.fail_at, wplan.fail_flush, wplan.fault_id, wplan.kind);
         ctx.sample(|| format!("writer plan: noise={:?} fail_at={:?} fail_flush={}", wplan.noise.codes, wplan.fail_at, wplan.fail_flush));
         let w1 = SimWriter::new(wplan);
-        let r1 = do_ser(fmt, hs, spec.input, w1.handle());
+        let r1 = do_ser(fmt, hs, spec.input, w1.handle(), src);
         let p0set: BTreeSet<MQuad> = p0.items.iter().cloned().collect();
         let same = |bytes: &[u8]| -> bool {
             let p = do_parse(fmt, hs, SimReader::perfect(bytes.to_vec()));
